@@ -7,34 +7,34 @@ V = os.path.dirname(os.path.dirname(os.path.abspath(__file__)))
 props = [json.loads(l) for l in open(os.path.join(V, "properties.jsonl"))]
 
 CLAIMS = {
-    "C01": ("other", "4.C01", "sibling agreement encrypt/decrypt + wrapper plumbing over MIR provenance terms (rustc_private driver)",
-            "Decides the structural necessary conditions of the round trip (layout, key split, cipher, PAE agreement, plumbing through all three layers, builder state kept across builds); does not decide cipher involution or UTF-8/JSON round trips.",
-            "trusted: stream ciphers are involutions, AEAD decrypt inverts encrypt, serde_json/UTF-8 round trips; rustc MIR is faithful"),
-    "C02": ("other", "4.C02", "sibling agreement sign/verify + wrapper plumbing over MIR provenance terms",
-            "Decides layout / PAE / algorithm agreement between sign and verify and the plumbing; signature scheme correctness is trusted.",
-            "trusted: verify(sign(m)) for valid key pairs in ring / ed25519-dalek / p384"),
-    "C03": ("proof", "4.C03", "CFG dominance (must-pass-through) + provenance terms over MIR",
-            "Ordering proof on the CFG: every Ok exit and every plaintext use of the 8 consumers is reachable only through the success edge of the authentication check; compared tag is whole; returned content is the authenticated content; claims only after authentication; one strict base64 engine. Obligations are counted and all must be discharged.",
+    "C01": ("other", "4.C01", "path-sensitive abstract interpretation of the whole entry points over the MIR (rustc_private driver) with the cryptographic primitives as uninterpreted functions (canonical descriptions), compared with the specification's algorithm and composed with the sibling entry point; layer contracts of the wrappers by interpretation with the layer below summarised; structural CFG / provenance-term rules as second opinion for undecided entry points",
+            "Decides, over all paths of the interpreted entry points: the consuming side run on the producing side's symbolic output returns exactly the message for every footer / assertion case (absent == empty), the producer computes the specification's token, parse_raw_token refuses only for stated causes, and the generic / prelude wrappers and setters forward payload, key, footer, assertion and keep builder state. The axioms about the primitives (stream cipher involution, AEAD, UTF-8) are trusted, not decided.",
+            "trusted: stream ciphers are involutions under the same key and counter, AEAD decrypt inverts encrypt, serde_json/UTF-8 round trips; the models of external callees in rules/psai.py / rules/models.py; rustc MIR is faithful"),
+    "C02": ("other", "4.C02", "path-sensitive abstract interpretation of the whole entry points over the MIR (rustc_private driver) with the cryptographic primitives as uninterpreted functions (canonical descriptions), compared with the specification's algorithm and composed with the sibling entry point; layer contracts of the wrappers by interpretation with the layer below summarised; structural CFG / provenance-term rules as second opinion for undecided entry points",
+            "Same as C01 for sign / verify: composition verify(sign(M)) = M on all paths, producer == specification, returned message = authenticated message, wrapper contracts; signature scheme correctness is an axiom of the models.",
+            "trusted: verify(sign(m)) holds exactly for the signer's public key and message in ring / ed25519-dalek / p384; models of external callees"),
+    "C03": ("proof", "4.C03", "path-sensitive abstract interpretation of the 8 core consumers and the 16 parser wrappers (events: authentication success before any keystream / UTF-8 step) + gates of parse_raw_token + panic-site inventory; CFG dominance as second opinion",
+            "Ordering proof over all interpreted paths: every accepting path of the 8 consumers carries the success event of the specification's authentication check (whole tag / signature / AEAD over the specification's PAE with the caller's key, footer, assertion) before any plaintext step; the returned content is the authenticated content; claims are examined only on the Ok value of the authenticating call; one strict base64 engine; textual gates; no panic in the core consumers. Obligations are counted and all must be discharged.",
             "trusted: MAC/signature unforgeability, base64 URL_SAFE_NO_PAD strictness, ring verify_slices_are_equal semantics"),
-    "C04": ("other", "4.C04", "provenance terms (whole key into the authenticator) + CFG gating",
-            "Decides that the caller's whole key keys the authenticator that gates success, at every layer; that another key fails is PRF/unforgeability (trusted).",
+    "C04": ("other", "4.C04", "path-sensitive abstract interpretation of the whole entry points over the MIR (rustc_private driver) with the cryptographic primitives as uninterpreted functions (canonical descriptions), compared with the specification's algorithm and composed with the sibling entry point; layer contracts of the wrappers by interpretation with the layer below summarised; structural CFG / provenance-term rules as second opinion for undecided entry points",
+            "Decides that every primitive is keyed from the caller's key exactly as the specification says, that the consumer run on a token produced under another key returns no Ok on any path, and that signers are built from the whole private key by the validating constructor; that another key makes a real MAC / signature fail is the axiom behind the models (PRF / unforgeability).",
             "trusted: HKDF/BLAKE2b are PRFs, signatures unforgeable"),
-    "C05": ("other", "4.C05", "must-pass-through on parse_raw_token + footer provenance in all 16 PAE sites + carrier identity",
-            "Decides the footer gate (4-segment tokens only through the equal edge of a full-length comparison with the expected footer, absent == empty), that the caller's expected footer is under every authenticator, the segment text, and the plumbing.",
+    "C05": ("other", "4.C05", "path-sensitive abstract interpretation of the whole entry points over the MIR (rustc_private driver) with the cryptographic primitives as uninterpreted functions (canonical descriptions), compared with the specification's algorithm and composed with the sibling entry point; layer contracts of the wrappers by interpretation with the layer below summarised; structural CFG / provenance-term rules as second opinion for undecided entry points; must-pass-through / path-sensitive gates of parse_raw_token; abstract evaluation of format_token",
+            "Decides the footer gate (4-segment tokens only through the equal edge of a full-length comparison with the expected footer, absent == empty), that the caller's expected footer is under every authenticator, that a token built with another footer is accepted on no path, the footer segment text of format_token, PAE framing and the plumbing.",
             "trusted: MAC strength; ring verify_slices_are_equal; base64 injective"),
-    "C06": ("other", "4.C06", "provenance terms + field-read (non-interference) analysis over MIR",
-            "Decides that the assertion is the last authenticated component on both sides, never reaches the token text except below the fixed-length tag/signature, is carried unchanged, forwarded by all wrappers, and only settable for v3/v4.",
+    "C06": ("other", "4.C06", "path-sensitive abstract interpretation of the whole entry points over the MIR (rustc_private driver) with the cryptographic primitives as uninterpreted functions (canonical descriptions), compared with the specification's algorithm and composed with the sibling entry point; layer contracts of the wrappers by interpretation with the layer below summarised; structural CFG / provenance-term rules as second opinion for undecided entry points; field-read analysis; impl-header facts",
+            "Decides that the assertion is the last authenticated component with the caller's value on both sides, that another assertion is accepted on no path (absent == empty), that it occurs in the token's symbolic description only inside the tag / signature, that it is carried unchanged, forwarded by all wrappers, and only settable for v3/v4.",
             "trusted: MAC strength; PAE length prefixing (checked by C08.R7)"),
-    "C07": ("other", "4.C07", "must-pass-through on parse_raw_token + constant tables + call-site terms",
+    "C07": ("other", "4.C07", "path-sensitive abstract interpretation of the whole entry points over the MIR (rustc_private driver) with the cryptographic primitives as uninterpreted functions (canonical descriptions), compared with the specification's algorithm and composed with the sibling entry point; layer contracts of the wrappers by interpretation with the layer below summarised; structural CFG / provenance-term rules as second opinion for undecided entry points; gates of parse_raw_token; constant tables by abstract evaluation",
             "Decides the header gate (both components compared on every accepting path), that each consumer checks its own version/purpose first, the marker/header string tables, and that the protocol's own header is under every authenticator.",
             "trusted: MAC strength; split('.') segments contain no '.'"),
-    "C08": ("other", "4.C08", "skeleton vs transcribed specification tables + abstract interpretation of format_token / PAE",
-            "Decides agreement of the implementation's skeleton (PAE lists, nonce derivation, key split constants, layout, primitives by type) with tables transcribed from the specification; byte-exactness of primitives is trusted.",
-            "trusted: primitives are byte-exact; the transcription in rules/protocol.py"),
+    "C08": ("other", "4.C08", "path-sensitive abstract interpretation of the whole entry points over the MIR (rustc_private driver) with the cryptographic primitives as uninterpreted functions (canonical descriptions), compared with the specification's algorithm and composed with the sibling entry point; layer contracts of the wrappers by interpretation with the layer below summarised; structural CFG / provenance-term rules as second opinion for undecided entry points; abstract interpretation of format_token / PAE",
+            "Decides that the symbolic token each producer computes equals the specification's algorithm transcribed in the same vocabulary (nonce derivation, key split constants, cipher, PAE, tag/signature, layout, base64url, footer segment iff non-empty), that each consumer performs the specification's check and returns its plaintext, and the composition; byte-exactness of primitives is trusted.",
+            "trusted: primitives are byte-exact; the transcription of Version1-4.md in rules/psai.py (spec_local / spec_public)"),
     "C09": ("proof", "4.C09", "path-sensitive abstract interpretation (affine / interval length domain) of the consumers' MIR with a panic-site inventory",
             "Every panic-capable site reachable from untrusted text (MIR asserts, indexing, split_at, copy_from_slice, from_slice, unwrap/expect, assert_eq!, explicit panics) is an obligation discharged from dominating guards and type-level lengths on every path; unknown external callees are findings. All obligations must be discharged.",
             "trusted: SAFE table of dependency functions (do not panic); blake2 / hmac / chacha key-length contracts; lengths <= isize::MAX"),
-    "C10": ("other", "4.C10", "provenance terms: fresh CSPRNG draw per build, whole buffer, all bytes on the wire",
+    "C10": ("other", "4.C10", "layer contract of the generic builders by abstract interpretation (one fresh Key::try_new_random of the right size per build reaches the core call) + abstract evaluation of try_new_random + producer == specification (all nonce bytes on the wire)",
             "Decides freshness by construction; the statistical statement over histories of an OS CSPRNG is not decidable statically.",
             "trusted: ring SystemRandom is a CSPRNG"),
     "C11": ("proof", "4.C11", "CFG/term check of the registration + finite-partition abstract interpretation of the validator closure's MIR",
@@ -43,17 +43,17 @@ CLAIMS = {
     "C12": ("proof", "4.C12", "CFG/term check of the registration + finite-partition abstract interpretation of the validator closure's MIR",
             "Same as C11 for nbf with the direction reversed.",
             "trusted: time's RFC 3339 parser and instant ordering; serde_json accessors; models in rules/models.py"),
-    "C13": ("other", "4.C13", "provenance terms of the defaults + abstract interpretation of verify_ready_to_build + who-writes over functions reachable from build",
-            "Decides: defaults from one now (+1h), exp removed iff acknowledged and at build time, acknowledgement only set never cleared, build order, and that building never drains / caches builder state (defaults persist across builds). Rendered values are not decided.",
+    "C13": ("other", "4.C13", "provenance terms of the defaults + build contract of the 8 prelude build methods by abstract interpretation (generic builder summarised) + who-writes over functions reachable from build",
+            "Decides: defaults from one now (+1h), exp removed iff acknowledged and at build time, flags persist across builds, duplicate error first, and that building never drains / caches builder state (defaults persist across builds). Rendered values are not decided.",
             "trusted: time crate rendering; HashMap semantics"),
-    "C14": ("other", "4.C14", "constant tables + per-impl serialisation shape + abstract interpretation of set_claim over the JSON partition + term of the payload entry closure",
-            "Decides the structural conditions of claim fidelity: registered keys, one-entry serialisation, storage under the claim's key (last wins), unwrapping exactly the one-entry map, no transformation at build time, parser returns the parsed payload unmodified. serde_json value round trips are trusted.",
+    "C14": ("other", "4.C14", "constant tables + per-impl serialisation shape + abstract interpretation of set_claim over the JSON partition, of the payload pipeline and of wrap_claims / wrap_value on concrete small inputs (lazy iterators, concrete maps)",
+            "Decides the structural conditions of claim fidelity: registered keys, one-entry serialisation, storage under the claim's key (last wins), unwrapping exactly the one-entry map, no entry dropped / added / re-keyed / transformed at build time, parser returns the parsed payload unmodified. serde_json value round trips are trusted.",
             "trusted: serde_json round trips JSON values; HashMap::insert replaces"),
-    "C15": ("other", "4.C15", "CFG must-pass-through inside verify_claims' loop + who-writes over functions reachable from parse",
-            "Decides that every expectation is visited, that an iteration without validator completes only through not-null and JSON-equal edges on the authenticated payload, failing edges end in Err, and that parsing changes no parser state.",
+    "C15": ("other", "4.C15", "behaviour table of verify_claims by abstract interpretation on a concrete parser configuration (expected {aud, exp}, validators {exp, nbf}) over the JSON partition + who-writes over functions reachable from parse",
+            "Decides, over all paths: an expected claim without validator yields Missing on null and an error on a differing value, success only when present and JSON-equal; no parser state changes through parse; the default parser registers validators for exactly exp and nbf.",
             "trusted: serde_json Value equality / indexing; HashMap iteration"),
-    "C16": ("other", "4.C16", "CFG dominance (validators only after authentication) + must-pass-through inside verify_claims + registration plumbing terms",
-            "Decides: validators are invoked only in verify_claims, only on the Ok value of the authenticating call, with (key, &json[key]); verdict via `?`; every registered validator (with or without expected claim) runs before success; registration replaces.",
+    "C16": ("other", "4.C16", "parse contracts (claims only on the Ok value of the authenticating call) and behaviour table of verify_claims by abstract interpretation; registration plumbing by abstract evaluation",
+            "Decides: validators are invoked only after authentication, with (key, &json[key]); an error fails the parse; on success every registered validator (with or without expected claim) ran exactly once and never twice on any path; a claim with a validator is decided by the validator alone; registration replaces; claims are constructed under their registered keys.",
             "trusted: HashMap iteration visits each key once"),
     "C18": ("other", "4.C18", "constant table + abstract interpretation of the reserved-key check and of all CustomClaim / time-claim constructors",
             "Decides: reserved table = the 7 registered keys; check is exact on the unmodified key and gates all three constructor forms which store the given key; time constructors accept iff iso8601::datetime accepts and keep the value verbatim. The acceptance set of iso8601 is trusted.",
